@@ -359,7 +359,8 @@ func runC20(c *Ctx) {
 		}
 	}
 	// source networks: both JSON forms
-	calpha := []string{"10.0.0.0/8", "192.168.1.0/24", "::1/128", "A:B::/32", " 10.1.0.0/16 ", "", "fe80::/10"}
+	// (the same network written with and without blanks, in both letter cases: one entry of the set)
+	calpha := []string{"10.0.0.0/8", "192.168.1.0/24", "::1/128", "A:B::/32", " 10.1.0.0/16 ", "", "fe80::/10", " 10.0.0.0/8", "10.0.0.0/8 ", "a:b::/32", "FE80::/10 ", "10.1.0.0/16"}
 	ncidr := 400
 	if c.thorough() {
 		ncidr = 5000
@@ -389,6 +390,25 @@ func runC20(c *Ctx) {
 			panic(err)
 		}
 		c.sum.Evaluations++
+		// Set replaces the list it is called on and touches no other: a list that shares its backing array with it (a
+		// struct copied by value) keeps its entries; Set and the string form of the decoder give the same list
+		{
+			orig := jwt.CIDRList{"192.168.0.0/16", "10.0.0.0/8", "172.16.0.0/12", "fd00::/8"}
+			snapshot := strings.Join(orig, "|")
+			cp := orig
+			cp.Set(strings.Join(es, ","))
+			cp2 := orig
+			json.Unmarshal(strJSON, &cp2)
+			c.sum.ImplChecks++
+			if strings.Join(orig, "|") != snapshot {
+				c.violation("source-network list: Set / decoding into a copy of a list changed the original list",
+					map[string]interface{}{"text": strings.Join(es, ","), "original_now": append([]string{}, orig...), "original_before": snapshot})
+			}
+			if strings.Join(cp, "|") != strings.Join(fromStr, "|") || strings.Join(cp2, "|") != strings.Join(fromStr, "|") {
+				c.violation("source-network list: Set on a non-empty list differs from decoding the string form into an empty one",
+					map[string]interface{}{"text": strings.Join(es, ","), "set": append([]string{}, cp...), "decoded_into_nonempty": append([]string{}, cp2...), "decoded": append([]string{}, fromStr...)})
+			}
+		}
 		// the comma-separated form, for ANY entries: the ordered set of the lower-cased, trimmed, non-empty pieces
 		{
 			sp := &ordset{norm: asciiLowerTrim}
